@@ -170,6 +170,9 @@ def d9_failure_visibility(facts, rep):
                    'ends', ln=node['ln'], key_extra='tablewait|%s' % node['ln'])
     if nw < 1:
         raise AnalysisBroken('no wait for the long segment table found (extend_table_if_necessary)')
+    d9_abandonment_on_every_exceptional_exit(facts, rep)
+    d9_first_block_waits(facts, rep)
+    d9_wait_path_reports_failed_segments(facts, rep)
     rep.floor('D9', 3, 'failure visibility')
 
 
@@ -315,31 +318,28 @@ def d3_publication(facts, rep):
 
 
 def d4_zero_fill(facts, rep):
+    """A slot that size() already covers must never be left as garbage: when the element constructor throws, the slots of the
+    claimed range that exist as raw memory are zero-filled on the exceptional path (the destructor of the vector later runs ~T
+    on them).  Decided with exit_coverage: the construct call is covered by a scope-exit epilogue (raii_guard, try_call handler,
+    catch(...)) that - directly or through a helper - zero-fills."""
+    from rules.common import exit_coverage
+    from engine.rules import Summaries
+    summ = Summaries(facts, max_depth=3)
+
+    def constructs(g, pos, e):
+        return isinstance(e, int) and g.nodes[e].get('k') == 'call' and (g.callee(e) or {}).get('n') == 'construct'
+
+    def zero_fills(g, pos, e):
+        return isinstance(e, int) and g.nodes[e].get('k') == 'call' and (g.callee(e) or {}).get('n') in ('zero_unconstructed_elements', 'memset')
     n = 0
     for name in ('internal_emplace_back', 'internal_loop_construct'):
         for fn in facts.get(CV + name):
-            guards = local_objects(fn, lambda c: c.endswith('raii_guard'))
-            cons = calls_named(fn, ('construct',))
-            if guards:
-                gp = guards[0][0]
-                dis = calls_named(fn, ('dismiss',))
-                lam = None
-                for x in fn.subtree(guards[0][3]):
-                    if fn.nodes[x].get('k') == 'lambda':
-                        lam = facts.fns.get(fn.nodes[x].get('fn'))
-                ok = bool(cons) and all(every_path_passes(fn, 'entry', lambda p, e: p == gp, end=c[0])[0] for c in cons) and bool(dis) and \
-                    all(every_path_passes(fn, 'entry', lambda p, e: p in set(c[0] for c in cons), end=d[0])[0] for d in dis) and \
-                    lam is not None and bool(calls_named(lam, ('zero_unconstructed_elements',)))
-                rep.ob('D4', 'K3', fn, 'a zero-filling guard is armed before the element constructor and dismissed after it', ok,
-                       'a throwing constructor leaves garbage in a slot that size() already covers', key_extra=str(fn.l0))
-                n += 1
-            else:
-                sites = try_call_sites(facts, fn)
-                ok = any(k == 'on_exception' and any(calls_named(h, ('zero_unconstructed_elements',)) for h in hs) and
-                         any(calls_named(b, ('construct',)) for b in bs) for _, k, bs, hs, _ in sites)
-                rep.ob('D4', 'K3', fn, 'element construction runs under an exception handler that zero-fills the unconstructed slots', ok,
-                       'no zero-fill on a throwing constructor', key_extra=str(fn.l0))
-                n += 1
+            nops, normal_ok, exc_ok, notes = exit_coverage(facts, summ, fn, constructs, zero_fills, 'zero-fills-unconstructed')
+            if not nops:
+                raise AnalysisBroken('%s: element construction not found' % name)
+            rep.ob('D4', 'K3', fn, 'element construction runs under a scope-exit epilogue that zero-fills the unconstructed slots', exc_ok,
+                   'a throwing constructor leaves garbage in a slot that size() already covers (%s)' % '; '.join(notes), key_extra=str(fn.l0))
+            n += 1
     rep.floor('D4', 3, 'construct guards')
 
 
@@ -481,12 +481,27 @@ def d8_cleanup_access(facts, rep):
     entry was seen allocated (above the failure tag / non-null).  Otherwise the handler dereferences a null segment:
     the vector crashes instead of reporting the exception."""
     n = 0
-    for fn in facts.fns.values():
-        if fn.kind != 'lambda':
+    # the clean-up code: the scope-exit functors of the growth functions and the methods of the vector they call (helpers)
+    cleanup = {}
+    work = []
+    for g in facts.fns.values():
+        if g.kind != 'lambda':
             continue
-        par = facts.fns.get(fn.d.get('lparent'))
-        if par is None or not par.p.endswith('concurrent_vector::internal_loop_construct'):
+        par = facts.fns.get(g.d.get('lparent'))
+        if par is None or par.p not in (CV + 'internal_loop_construct', CV + 'internal_grow'):
             continue
+        work.append((g, par))
+    while work:
+        g, par = work.pop()
+        if g.u in cleanup:
+            continue
+        cleanup[g.u] = (g, par)
+        for pos, sx, node, d in calls(g):
+            h = facts.fns.get(node.get('fn'))
+            if h is not None and (h.cls or '').startswith(D1N + 'concurrent_vector') and h.kind == 'method' and \
+                    h.p not in (CV + 'internal_subscript', CV + 'internal_loop_construct', CV + 'internal_grow') and len(cleanup) < 200:
+                work.append((h, par))
+    for fn, par in sorted(cleanup.values(), key=lambda t: t[0].q):
         subs = [c for c in calls_named(fn, ('internal_subscript',)) if 'internal_subscript<true>' not in (c[3].get('q') or '')]
         if not subs:
             continue
@@ -634,3 +649,135 @@ def d5_capacity_is_the_allocated_prefix(facts, rep):
                'segments that do not exist' % '; '.join(bad), key_extra='capacity-prefix')
     if n < 1:
         raise AnalysisBroken('segment_table::capacity not found')
+
+
+def d9_abandonment_on_every_exceptional_exit(facts, rep):
+    """(c) A growth call owns the segments that start inside the range it claimed; my_size covers the range from the moment of
+    the claim.  Whatever exception ends the call - an element constructor, but also the ALLOCATION of a segment (the last segment
+    of the range is allocated in advance, the others when the loop reaches their first element) - the segments it still owes are
+    tagged as failed, otherwise a later growth call that lands in one of them waits for ever.  Rule (exit_coverage): in
+    internal_grow and internal_loop_construct every call that can raise an exception of user code (allocator, constructor,
+    iterator) is covered on the exceptional path by an epilogue that stores / compare-exchanges the failure tag into the table."""
+    from rules.common import MayThrow, exit_coverage
+    from engine.rules import Summaries
+    mt = MayThrow(facts, external_may_throw=False)
+    summ = Summaries(facts, max_depth=3)
+
+    def tags(f, pos, e):
+        if not isinstance(e, int):
+            return False
+        o = atomic_op(f, e)
+        return bool(o and o['kind'] in ('store', 'cas', 'rmw') and o.get('val', -1) >= 0 and
+                    any(f.nodes[x].get('n') == 'segment_allocation_failure_tag' for x in f.subtree(o['val'])))
+
+    CHECKED = (CV + 'internal_grow', CV + 'internal_loop_construct')
+
+    def raises(g, pos, e):
+        if not (isinstance(e, int) and g.nodes[e].get('k') in ('call', 'ctor') and mt.node(g, e)):
+            return False
+        return (g.callee(e) or {}).get('p') not in CHECKED          # a checked callee covers its own exceptional exits
+    n = 0
+    for name in ('internal_grow', 'internal_loop_construct'):
+        for fn in facts.get(CV + name):
+            nops, normal_ok, exc_ok, notes = exit_coverage(facts, summ, fn, raises, tags, 'tags-abandoned-segments')
+            if not nops:
+                continue
+            n += 1
+            rep.ob('D9', 'K3', fn, 'every exceptional exit of a growth call tags the segments it still owes as failed', exc_ok,
+                   '%s - an allocation failure (or a throwing iterator) ends the call outside the clean-up: the segments that start in the '
+                   'rest of the claimed range stay nullptr with nobody left to allocate them, and a later growth call waits for them for '
+                   'ever' % '; '.join(n_ for n_ in notes if 'throws' in n_)[:400], key_extra='abandon|%s' % name)
+    if n < 2:
+        raise AnalysisBroken('internal_grow / internal_loop_construct: no call that can raise a user exception found')
+
+
+def d9_first_block_waits(facts, rep):
+    """(d) The segments of the first block share one allocation; the thread that wins table[0] fills the other entries, a loser
+    waits for "its" entry to become non-null.  If the winner's allocation fails it can only tag the entries of the table it sees
+    (the embedded table has three); after the table has been extended the remaining first-block entries are null for good.  So a
+    wait for a first-block entry needs an exit of its own: the waiting loop also looks at table[0] and leaves when that holds the
+    failure tag (or the failure handler provably tags first_block entries of every table).  An unconditional
+    spin_wait_while_eq(table[k], nullptr) on a first-block entry never ends after a failed reserve()."""
+    n = 0
+    for fn in facts.get(CV + 'create_segment'):
+        first_block_edges = edges_where(fn, lambda a, truth: truth and fn.n(fn.strip(a)).get('k') == 'binop' and fn.n(fn.strip(a))['op'] == '<' and
+                                        fn.n(fn.strip(fn.n(fn.strip(a))['r'])).get('n') == 'first_block')
+        if not first_block_edges:
+            raise AnalysisBroken('create_segment: the `seg_index < first_block` branch was not found')
+        # the waits of the first-block branch: in create_segment itself or in a helper method it calls there
+        scopes = [(fn, lambda g, pos: dominated_by_edges(fn, pos, first_block_edges)[0])]
+        for pos, s, node, d in calls(fn):
+            h = facts.fns.get(node.get('fn'))
+            if h is not None and (h.cls or '').startswith(D1N + 'concurrent_vector') and h.kind == 'method' and \
+                    dominated_by_edges(fn, pos, first_block_edges)[0]:
+                scopes.append((h, lambda g, pos: True))
+        bad = []
+        for g, inside in scopes:
+            for pos, s, node, d in calls_named(g, ('spin_wait_while_eq',)):
+                a = node.get('a', [])
+                if not a or not any(g.nodes[x].get('k') == 'index' for x in g.subtree(a[0])):
+                    continue
+                if inside(g, pos):
+                    n += 1
+                    bad.append('line %s' % node['ln'])
+            # explicit wait loops: a cycle that contains a pause() and loads a table entry
+            for pos, s, node, d in calls_named(g, ('pause',)):
+                if not inside(g, pos):
+                    continue
+                reached, ex, par = g.walk(pos)
+                cyc = set(q for q in reached if g.can_reach(q, pos))
+                if not cyc:
+                    continue
+                n += 1
+                looks = tagcmp = False
+                for q in cyc:
+                    e = g.elems(q[0])[q[1]]
+                    if not isinstance(e, int):
+                        continue
+                    sub = g.subtree(e)
+                    if any(g.nodes[x].get('k') == 'index' and g.cv(g.nodes[x].get('idx', -1)) == 0 for x in sub):
+                        looks = True
+                    if any(g.nodes[x].get('n') == 'segment_allocation_failure_tag' for x in sub):
+                        tagcmp = True
+                if not (looks and tagcmp):
+                    bad.append('loop at line %s' % node['ln'])
+        rep.ob('D9', 'K7', fn, 'a wait for a first-block entry ends when the first block failed to allocate', n > 0 and not bad,
+               'unconditional wait(s) for a first-block table entry (%s): after a failed first-block allocation on the embedded table the '
+               'entries beyond it are never written - push_back number first-block-size+1 after a failed reserve() spins for ever'
+               % ', '.join(bad), key_extra='first-block-wait')
+    if n < 1:
+        raise AnalysisBroken('create_segment: no wait for a first-block entry found')
+
+
+def d9_wait_path_reports_failed_segments(facts, rep):
+    """(e) grow_to_at_least(n) on a vector whose my_size already covers n waits for the segments below n.  A segment whose
+    owner failed holds the failure tag: the elements it should contain do not exist, so the call must not return normally
+    ("returns only when all elements below n are constructed"; size() would be smaller than n) - it compares every entry it
+    waited for with the failure tag and leaves by an exception on that edge."""
+    for fn in facts.get(CV + 'internal_grow_to_at_least'):
+        rets = [pos for pos, s, nd in fn.stmt_elems(('return',))]
+
+        def failed(a, truth):
+            x = fn.n(fn.strip(a))
+            if x.get('k') != 'binop' or x['op'] not in ('==', '!=', '<=', '>'):
+                return False
+            sides = (x['l'], x['r'])
+            for i_, sd in enumerate(sides):
+                if any(fn.nodes[y].get('k') == 'index' for y in fn.subtree(sd)) and last_member(fn, sides[1 - i_]) == 'segment_allocation_failure_tag':
+                    op = x['op']
+                    if i_ == 1:
+                        op = {'<=': '>=', '>': '<'}.get(op, op)
+                    isfail = {'==': True, '!=': False, '<=': True, '>': False}.get(op)
+                    return isfail is not None and truth == isfail
+            return False
+        fe = edges_where(fn, failed)
+        ok = bool(fe)
+        for b, si in fe:
+            reached, ex, par = fn.walk((fn.blocks[b]['succ'][si], -1),
+                                       stop_elem=lambda p_, e: isinstance(e, int) and fn.nodes[e].get('k') == 'call' and
+                                       (fn.callee(e) or {}).get('n') == 'throw_exception')
+            if ex or any(r in reached for r in rets):
+                ok = False
+        rep.ob('D9', 'K13', fn, 'the waiting path of grow_to_at_least leaves by an exception when a segment below n is tagged as failed', ok,
+               'no comparison of the awaited table entries with segment_allocation_failure_tag that ends in throw_exception: after a failed '
+               'growth call grow_to_at_least(n) returns normally although the elements below n do not exist (size() < n)', key_extra='wait-path-tag')
